@@ -37,6 +37,43 @@ CHECKS = {
  "C15": dict(level=MC, design="5/C02",
    text="Same pipeline as C02: every emitted frame is walked by an independent block-level walker (magic, header fields, block types and sizes, exactly one last block at the end, nothing after it but the checksum, block count for the input length), regenerated block sizes and every match offset (<= window and <= data produced so far) are read from the decoder's block/sequence events, and the frame size is compared with input + framing overhead; invariants OneLast / Structure of FrameCompressor.tla on every validated trace.",
    note="offsets and regenerated sizes come from decoder events (hook H3), the decode result is independently confirmed by libzstd", technique=TECH),
+
+ "C01": dict(level=MC, design="5/C01",
+   text="ZstdFrames.tla is the format as abstract syntax with its meaning (Exec over literals and sequences, repeat-offset rule, per-frame format state); TLC enumerates frames built from a default compressed block by one or two deviations per block (all literal kinds and size formats, 0..3 sequences, all mode triples incl. repeat modes, repeat-offset codes with and without literals, overlapping copies, raw/RLE/empty blocks, header variants) with the specified content; the harness serialises each with its own bit packers (accepted only where libzstd agrees with the specification) and decodes it through four entry points; random legal schedules over decodecorpus / libzstd (levels -5..22, window logs, long-distance mode, flags, flush patterns) / ruzstd frames with the original bytes as oracle; repeat-offset events of those decodes are row-checked against RepStep.",
+   note="exhaustive over the abstract feature graph with small sizes; byte contents and large sizes sampled; serializer trusted only where libzstd confirms", technique=TECH),
+ "C03": dict(level="fault_enumeration", design="5/C03",
+   text="Fault enumeration driven by the specifications: every valid frame enumerated by ZstdFrames.tla and every frame of the protocol model's sets is faulted at every byte position with seven fault values plus insertion/deletion, both synthetic dictionaries at every position and truncation length, seeded multi-byte mutations of real frames, the saved fuzz artefacts; each case through four entry points in a release build and a debug-assertion build, only Ok/Err allowed, then reset-and-reuse on a good frame; watchdog and allocator cap name the case on hang / runaway allocation; the ring-buffer operations and raw copies recorded during a sample of the cases are validated against RingIdx.tla (enabledness = preconditions of the unsafe methods, copies inside the allocation, reads of written cells only, no write into live data).",
+   note="not exhaustive over byte strings; UB outside ringbuffer.rs out of scope; hang = no progress for 30 s", technique="model-driven fault enumeration + TLA+ trace validation of ring events (TLC)"),
+ "C09": dict(level=MC, design="5/C09",
+   text="ZstdFrames.tla with a dictionary (entropy tables, repeat offsets and content as the starting state): TLC enumerates every (literals before, offset, length) around the dictionary/output boundary and frames whose first block uses the dictionary state, with the specified content or 'invalid'; each is serialised against a synthetic Zstandard-format dictionary (cross-checked with libzstd) and decoded through four entry points; the FrameDecoder model over the dictionary frame set covers a missing dictionary, two dictionaries and histories mixing dictionary and plain frames; libzstd-trained dictionaries with inputs compressed at many levels, with and without dictionary id, oracle = input.",
+   note="exhaustive around the boundary for one 64-byte dictionary; trained dictionaries sampled", technique=TECH),
+ "C11": dict(level=MC, design="5/C11",
+   text="WindowLimit.tla is the accept/reject decision over size ranks (clamp to the format maximum); TLC checks its soundness properties and enumerates descriptors x boundary limits (requested-1/0/+1, 0, around the default, around the format maximum, 2^64-1) x window / single-segment declaration x decoder history x seven front ends with the specified outcome; every case is materialised and run on the real front end under the counting allocator: accept/reject, reported requested/max values, largest allocation before a rejection.",
+   note="20 descriptors in the quick tier, all 256 in the thorough tier; acceptance of windows above 64 MiB only on paths that do not pre-allocate", technique=TECH),
+ "C12": dict(level=MC, design="5/C12",
+   text="FSE.tla is RFC 8878 4.1. Decoder: FSECases.tla enumerates normalised distributions (less-than-one entries, zero runs), proves ReadDesc/DescBytes inversion and state partition on each and writes description + specified table; the real build_decoder must produce exactly that table. Encoder: normalisation under production parameters, every encoder state, the written description and short 1-/2-state streams are dumped as rows and judged by FSERows.Ok; predefined tables of both sides equal Table(6|6|5, RFC distribution).",
+   note="decoder accuracy log 5 (6 in thorough) over a value menu; encoder tables up to log 9; streams of 4..9 symbols", technique=TECH),
+ "C13": dict(level=MC, design="5/C13",
+   text="Huffman.tla is RFC 8878 4.2. Decoder: HufCases.tla enumerates all explicit weight vectors up to a bound, classifies them and writes description, literals using every symbol and the bit stream; the real decoder must decode valid ones to exactly those literals and refuse incomplete ones. Encoder: for alphabet sizes 2..256 x rank orders x placements of unused symbols the code lengths, code values, the written description (direct / FSE compressed < 128 bytes) and 1-/4-stream encodings are judged by HufRows.Ok; boundary-length literals round-trip through both real decoders.",
+   note="decoder vectors up to 4 (5) entries over weights 0..4; complete-but-not-minimal descriptions unconstrained", technique=TECH),
+ "C14": dict(level=MC, design="5/C14",
+   text="ZstdFormat.tla holds the RFC tables and header layouts (FormatTheorems: contiguous code ranges, count codec inversion); the implementation's function tables of both sides are dumped through pass-through hooks (every literal/match length, offsets at all code boundaries and random 32-bit values, repeat-offset function, every sequence count through writer and parser, all literals-header patterns, block headers incl. all 2^24 as per-class summaries, every frame descriptor x window byte, the compressor's header writers) and TLC judges every row with FormatRows.Ok.",
+   note="quick tier strides literal/match lengths and counts (every 5th value + all boundaries); thorough: every value", technique="TLA+ specification + row validation by TLC of dumped implementation tables"),
+ "C16": dict(level=MC, design="5/C16",
+   text="ParseClasses.tla enumerates the classes of valid parses the block encoder distinguishes (sequence-count forms and boundaries, code-set shapes for the FSE builder, literals decisions); each class is materialised as a concrete valid parse (data synthesised from the plan) and driven through the public Matcher trait; ALL valid parses of all binary blocks of 3..7 bytes after histories of 0/3/5 bytes, a sample confirmed valid by TLC with Matcher!SeqsOk; seeded random valid parses of full blocks; outcome: no panic, decode by ruzstd and libzstd = input.",
+   note="quick tier runs every 4th tiny parse; large parses sampled", technique=TECH),
+ "C17": dict(level=MC, design="5/C17",
+   text="Matcher.tla: the window bookkeeping of the built-in driver explored exhaustively (window bounded, base offsets are true distances; off-by-one variant must be found), and the contract SeqsOk; the real MatchGeneratorDriver (hook: arbitrary slice size / slices per window) is driven over all binary strings for a set of block-length tuples (ternary for shorter ones), 1..3 slices, match/skip per block, reset-and-reuse; every run reporting a match is a row judged by MatcherRows.Ok against the retained data Matcher!Evict predicts; full-size seeded runs checked with the same rule.",
+   note="slices of 5..8 bytes exhaustively; full-size behaviour sampled", technique=TECH),
+ "C18": dict(level=MC, design="5/C18",
+   text="IoLayer.tla specifies read_exact, take+read and write_all over scripted readers/writers; TLC enumerates all scripts up to 3 (4) answers x buffer sizes x limits; a second harness crate is built four times (std/no_std x hash/no hash) against the current tree; every IoLayer case is replayed against ruzstd::io of each build; a common program set (decode every model frame three ways, compress one input per content class at both levels) runs in all four and is compared in lock step under the Features refinement mapping (no-hash frame = hash frame minus checksum flag and trailer).",
+   note="program set small; I/O layer exhaustive within bounds", technique=TECH),
+ "C19": dict(level=MC, design="5/C19",
+   text="Cli.tla maps scenarios (level option, output path, input kind, output location, archive kind) to specified effects; TLC enumerates all 132 scenarios; each runs against the freshly built ruzstd-cli in a scratch directory: exit status class, no panic, no new file after a failed compress, round trip through the tool and through libzstd on success.",
+   note="non-zero exit without panic counts as reported failure", technique="TLA+ scenario specification enumerated by TLC + replay on the real binary"),
+ "C20": dict(level=MC, design="5/C20",
+   text="DictBuilder.tla is the control flow and size arithmetic of create_raw_dict_from_source; TLC proves on a 14^3 grid that every step stays inside its precondition and that the output bound is <= requested; the real builder runs on the same grid x source kinds (seeded RNG, watchdog) and every run is a row judged by TLC (no panic, finished, length <= requested and <= structural bound); estimates beyond 32 bits against the documented promise.",
+   note="three source kinds per grid point", technique=TECH),
 }
 NOT_YET = {}
 
